@@ -540,9 +540,33 @@ def evaluate(ctx, pg, sc):
             g_recover(R, pg, spec)
 
 
+def check_losses(ctx, pg, k, mu):
+    """the loss functions the property names are what they say: `LNorm(p).compute(a, b)` is the p-norm of a - b and
+    `PoissonLikelihood.compute(observed, modelled)` the negative log-likelihood of independent Poisson counts - also where an
+    observed class is empty (its term is the modelled mean itself)"""
+    import math
+    k, mu = np.asarray(k, dtype=float), np.asarray(mu, dtype=float)
+    want = -sum(ki * math.log(mi) - mi - math.lgamma(ki + 1) for ki, mi in zip(k, mu))
+    got = float(pg.PoissonLikelihood().compute(observed=k, modelled=mu))
+    if not close(got, want, 1e-10, 1e-12):
+        ctx.violation('loss:poisson-likelihood', mode='losses', observed=k.tolist(), modelled=mu.tolist(), expected=want, returned=got,
+                      oracle='- sum_i log Poisson(k_i; mu_i)')
+    d = k - mu
+    for name, norm, w in (('L1', pg.L1Norm(), float(np.abs(d).sum())), ('L2', pg.L2Norm(), float(math.sqrt((d * d).sum()))),
+                          ('Linf', pg.LInfNorm(), float(np.abs(d).max())), ('L3', pg.LNorm(3), float((np.abs(d) ** 3).sum() ** (1 / 3)))):
+        g = float(norm.compute(k, mu))
+        if not close(g, w, 1e-12, 1e-300):
+            ctx.violation(f'loss:{name}', mode='losses', observed=k.tolist(), modelled=mu.tolist(), expected=w, returned=g)
+    ctx.count('loss-functions')
+
+
 def one(ctx, item):
     pg = C.import_phasegen()
     rng = random.Random(f'{ctx.seed}-c19-{item}')
+    rl = random.Random(f'{ctx.seed}-c19-loss-{item}')
+    m = rl.randint(2, 8)
+    check_losses(ctx, pg, [rl.choice([0, 0, 1, 2, 5, 12, 31, 60]) for _ in range(m)],
+                 [2.0 ** rl.randint(-4, 5) * rl.choice([1.0, 1.5, 1.1]) for _ in range(m)])
     sc = rand_scenario(rng, ctx.quick)
     if item[0] == 'recover':
         sc['groups'] = ['recover']
@@ -565,6 +589,8 @@ def run(ctx):
 
 
 def replay(ctx, payload):
+    if payload.get('mode') == 'losses':
+        return check_losses(ctx, C.import_phasegen(), payload['observed'], payload['modelled'])
     pg = C.import_phasegen()
     sc = payload['scenario']
     sc['spec']['bounds'] = [tuple(b) for b in sc['spec']['bounds']]
